@@ -59,6 +59,15 @@ def uv_lookup_rules(cx):
     b = cx.fn(f'{UV}::triangle')
     if b:
         r = cx.retval(b)
+        comb = None
+        em = match('(call Option::map $opt $cl)', r)
+        if em is not None and em['cl'][0] == 'closure':
+            # `loc.barycentric_coordinates().or_else(|| interior_barycentric(..)).map(|bc| (t_id, bc))`: Some(closure(content)) when the option is Some
+            from vpa import inline as IN0
+            v0 = IN0.closure_apply(cx.facts, em['cl'], (('unwrap', em['opt']),))
+            if v0 is not None:
+                comb = em['opt']
+                r = ('agg', 'option::Option::Some', ('0', simplify(v0)))
         P = '(call TriMesh::project_local_point_and_get_location (field tri_map (param self)) (param point) _)'
         TRI = f'(call TriMesh::triangle (field tri_map (param self)) (field 0 (field 1 {P})))'
         e = find(f'(agg *Option::Some (0 (agg tuple (0 (field 0 (field 1 {P}))) (1 $bc))))', r)
@@ -85,6 +94,10 @@ def uv_lookup_rules(cx):
         nones = [(s_, d_) for s_, d_ in cx.rets(b) if not (d_[0] == 'agg' and d_[1].endswith('Option::Some'))]
         okn = all(d_[0] == 'residual' and find('(call *interior_barycentric _ _ _ _)', d_) is not None for s_, d_ in nones) and \
             all(not any(find('(field is_inside _)', a_) is not None for a_, p_ in cx.guards(b, s_.bb)) for s_, d_ in cx.rets(b))
+        if comb is not None:
+            # combinator form: the result is None exactly when the mapped option is - the location's weights or else interior_barycentric's
+            okn = interior_handled and match('(call Option::or_else (call TrianglePointLocation::barycentric_coordinates _) _)', comb) is not None and \
+                all(not any(find('(field is_inside _)', a_) is not None for a_, p_ in cx.guards(b, s_.bb)) for s_, d_ in cx.rets(b))
         cx.ob('GUARD', 'UvMapping::triangle:none-only-degenerate', okn,
               'UvMapping::triangle gives None only by propagating interior_barycentric (a degenerate UV triangle); a query on or beyond the outline of the map is answered with the closest triangle '
               '(points ON the boundary of the disk round-trip 3D -> UV -> 3D)', where=b.file, found='; '.join(show(d_)[:100] for _, d_ in nones))
